@@ -36,7 +36,13 @@ ORACLES = {
               'stdlib::list_slice', 'stdlib::dict_get', 'stdlib::range'],
     },
     'C07': {'*': ['core::policy']},
-    'C19': {'*': []},
+    'C19': {
+        'lsp::offset_to_position': ['lsp::offset_to_position', 'lsp::round_trip', 'lsp::monotone', 'lsp::span_to_range'],
+        'lsp::position_to_offset': ['lsp::position_to_offset', 'lsp::round_trip'],
+        'lsp::span_to_range': ['lsp::span_to_range'],
+        'syntax::get_line_info': ['syntax::get_line_info'],
+        '*': ['lsp::offset_to_position', 'lsp::round_trip', 'lsp::position_to_offset', 'lsp::monotone', 'lsp::span_to_range', 'syntax::get_line_info'],
+    },
 }
 
 
@@ -46,14 +52,18 @@ def _target(root):
 
 def build(root, crate='replay'):
     """(re)build the native driver against /repo's current working tree. Returns path or None."""
+    features = []
+    tdir = _target(root)
+    if crate == 'replay_lsp+lsp':
+        crate, features, tdir = 'replay_lsp', ['--features', 'lsp'], _target(root) + '-lsp'
     cdir = os.path.join(root, crate)
     try:
         shutil.copy('/repo/Cargo.lock', os.path.join(cdir, 'Cargo.lock'))
     except OSError:
         pass
-    env = dict(ENV, CARGO_TARGET_DIR=_target(root))
-    p = subprocess.run(['cargo', 'build', '--release', '--offline', '-q'], cwd=cdir, env=env, capture_output=True, text=True)
-    exe = os.path.join(_target(root), 'release', 'verif_' + crate)
+    env = dict(ENV, CARGO_TARGET_DIR=tdir)
+    p = subprocess.run(['cargo', 'build', '--release', '--offline', '-q'] + features, cwd=cdir, env=env, capture_output=True, text=True)
+    exe = os.path.join(tdir, 'release', 'verif_' + crate)
     if p.returncode != 0 or not os.path.exists(exe):
         sys.stderr.write('replay driver build failed:\n' + p.stderr[-1500:] + '\n')
         return None
@@ -70,7 +80,9 @@ def _run(exe, args, timeout=300):
 
 
 def crate_for(oracle: str) -> str:
-    return 'replay_lsp' if oracle.startswith('lsp::') or oracle.startswith('syntax::') or oracle.startswith('incan::') else 'replay'
+    if oracle.startswith('lsp::') or oracle.startswith('incan::'):
+        return 'replay_lsp+lsp'
+    return 'replay_lsp' if oracle.startswith('syntax::') else 'replay'
 
 
 def known_classes(root, pid):
